@@ -1,0 +1,24 @@
+//go:build verif
+
+package prototext
+
+import "google.golang.org/protobuf/reflect/protoreflect"
+
+// Contracts for the text decoder's field-uniqueness protocol (property C26).
+//
+// The decoder is reflection over protoreflect and is abstracted; what is decided is the protocol
+// around its seen-sets (internal/set.Ints, itself proved against a membership view): a
+// non-repeated field is handed to the value decoder only after it has been checked not to have
+// been seen in this message, and is then recorded.
+//
+//@ pure protoreflect.FieldDescriptor.Number
+
+// @ props C26
+// @ mode int
+// @ nopanic
+// @ callsite d.unmarshalSingular: !seenNums.Has(uint64(fd.Number()))
+// @ site seenNums.Set(num): num == uint64(fd.Number())
+func contract_decoder_unmarshalMessage(d decoder, m protoreflect.Message, checkDelims bool) (err error) {
+	modifiesAll()
+	return
+}
